@@ -13,7 +13,7 @@ PI: "pi"
 SIN: "sin"
 COS: "cos"
 TAN: "tan"
-EXP: "EXP"
+EXP: "exp"
 LN: "ln"
 SQRT: "sqrt"
 COMMENT: /\/\/+.*/
@@ -71,12 +71,14 @@ mixedlist: ID "[" NNINTEGER "]" | mixedlist "," ID
 argument: ID | ID "[" NNINTEGER "]"
 explist: exp | explist "," exp
 exp: mulexp ((/\+/ | /\-/) mulexp)*
-mulexp: primaryexp ((/\*/ | /\//) primaryexp)*
-usub: "-" exp
-pow: primaryexp "^" primaryexp
+mulexp: signedexp ((/\*/ | /\//) signedexp)*
+?signedexp: usub | powexp
+usub: "-" signedexp
+?powexp: pow | primaryexp
+pow: primaryexp "^" signedexp
 parenexp: "(" exp ")"
 unaryexp: unaryop "(" exp ")"
-primaryexp: parenexp | REAL | NNINTEGER | PI | ID | pow | usub | unaryexp
+primaryexp: parenexp | REAL | NNINTEGER | PI | ID | unaryexp
 unaryop: SIN
         | COS
         | TAN
